@@ -625,12 +625,15 @@ def run(model, tier="quick"):
 
 
 MANIFEST = {
-    "technique": "provenance analysis of every input-frame read in per-bar code (keys <= current bar) and an alias/sink analysis for in-place writes under copy-on-write",
+    "technique": "provenance analysis of every input-frame read in per-bar code (keys <= current bar), time-direction and binning rules over the data preparation, alias/sink analysis for in-place writes under copy-on-write incl. objects inside cells",
     "claim": "Every read of a market data frame or of the price frame that can execute inside the bar loop is a point "
              "lookup, membership test, bounded label slice or metadata access whose key derives from the current bar's "
              "timestamp (floor / minus a non-negative constant allowed); the prepared price column is an earlier close; no "
              "per-bar code writes an input frame in place, rows that are modified are copies, and order-book cell objects "
-             "reach the mutating fill loop only as deep copies. This bounds what bar k can see to rows <= k for every history.",
+             "reach any mutating function only as deep copies (parameter-mutation summaries over resolved callees). In the data "
+             "preparation a backward fill is admitted only after a forward fill of the same frame (head rows only), column "
+             "rules and fill calls ask for forward fills, shifts look back, and every resampling reachable from "
+             "switch_interval bins like the bar index. This bounds what bar k can see to rows <= k for every history.",
     "note": "Trusted: pandas >= 3 copy-on-write semantics; the enumeration of frame roots (self._data/self.data, "
             "Actuator._token_prices). Not decided: sortedness of the index, strategy code, pandas < 3.",
 }
